@@ -1,6 +1,8 @@
 import XsVerif.Driver.CMJson
 import XsVerif.Model.Incl
 import XsVerif.Model.Restriction
+import XsVerif.Model.Facets
+import XsVerif.Model.AttrRestriction
 open Lean XsVerif.Driver XsVerif.Wildcard XsVerif.CM XsVerif.Restr XsVerif
 
 namespace XsVerif.Driver.C14
@@ -104,10 +106,191 @@ def handleOcc (j : Json) : Except String Json := do
     else throw "occ"
   return Json.mkObj [("r", Json.arr rs.toArray)]
 
+/-! ### facets -/
+open XsVerif.Facets in
+section
+def intOf (j : Json) : Except String Int := j.getInt?
+
+/-- value: [ord, len, int, frac, key] -/
+def parseVal (j : Json) : Except String (Val Int) := do
+  let a ← j.getArr?
+  if h : a.size = 5 then
+    pure { ord := (← intOf a[0]), len := (← a[1].getNat?), int := (← a[2].getNat?),
+           frac := (← a[3].getNat?), key := (← a[4].getNat?) }
+  else throw "val"
+
+def parseF {β : Type} (f : Json → Except String β) (j : Json) : Except String (F β) := do
+  let a ← j.getArr?
+  if h : a.size = 2 then pure { v := (← f a[0]), fixed := (← a[1].getBool?) } else throw "facet"
+
+def parseWs (j : Json) : Except String Ws := do
+  match (← j.getStr?) with
+  | "preserve" => pure .preserve | "replace" => pure .replace | "collapse" => pure .collapse
+  | _ => throw "ws"
+
+def optF {β : Type} (j : Json) (k : String) (f : Json → Except String β) : Except String (Option (F β)) :=
+  match j.getObjVal? k with
+  | .ok v => some <$> parseF f v
+  | .error _ => pure none
+
+def parseFSet (j : Json) : Except String (FSet Int) := do
+  let en ← match j.getObjVal? "enum" with
+    | .ok (.arr a) => some <$> a.toList.mapM parseVal
+    | _ => pure none
+  return { length := (← optF j "length" (·.getNat?)), minLength := (← optF j "minLength" (·.getNat?)),
+           maxLength := (← optF j "maxLength" (·.getNat?)), minInc := (← optF j "minInclusive" parseVal),
+           minExc := (← optF j "minExclusive" parseVal), maxInc := (← optF j "maxInclusive" parseVal),
+           maxExc := (← optF j "maxExclusive" parseVal), totalDigits := (← optF j "totalDigits" (·.getNat?)),
+           fractionDigits := (← optF j "fractionDigits" (·.getNat?)), enum := en,
+           ws := (← optF j "whiteSpace" parseWs) }
+
+def suffixes {β : Type} : List β → List (List β)
+  | [] => []
+  | x :: xs => (x :: xs) :: suffixes xs
+
+/-- {"op":"facets","chain":[step,…] (nearest first),"vals":[[ord,len,int,frac,key],…],
+     "texts":[[[codepoints],key],…]}
+    → for every suffix `S :: C` of the chain: the error codes of `checkStep C S`, and for the type with
+      chain `S :: C` the verdicts of `validChain`, `validEff` on the values and of `lexValid` on the texts -/
+def handleFacets (j : Json) : Except String Json := do
+  let chain ← (← getArr j "chain").toList.mapM parseFSet
+  let vals ← match j.getObjVal? "vals" with
+    | .ok (.arr a) => a.toList.mapM parseVal
+    | _ => pure []
+  let texts ← match j.getObjVal? "texts" with
+    | .ok (.arr a) => a.toList.mapM fun t => do
+        let p ← t.getArr?
+        if h : p.size = 2 then
+          let cs ← (← p[0].getArr?).toList.mapM (·.getNat?)
+          pure (cs.map Char.ofNat, (← p[1].getArr?).toList)
+        else throw "text"
+    | _ => pure []
+  -- key of a normalised text: given by the harness as a table [[codepoints], key] per text
+  let out ← (suffixes chain).mapM fun sc => do
+    match sc with
+    | [] => throw "empty"
+    | S :: C =>
+      let errs := sortStrs (dedup ((checkStep C S).map E.code))
+      let lex ← texts.mapM fun (cs, table) => do
+        let tbl ← table.mapM fun e => do
+          let q ← e.getArr?
+          if h : q.size = 2 then
+            pure (((← q[0].getArr?).toList.mapM (·.getNat?)), (← q[1].getNat?))
+          else throw "table"
+        let tbl' ← tbl.mapM fun (a, k) => do pure ((← a).map Char.ofNat, k)
+        let keyOf (t : Datatypes.Str) : Nat := ((tbl'.find? (·.1 == t)).map (·.2)).getD 0
+        pure (Json.bool (lexValid keyOf (S :: C) cs))
+      pure (Json.mkObj [("errs", Json.arr (errs.map Json.str).toArray),
+        ("valid", Json.arr (vals.map fun v => Json.bool (validChain (S :: C) v)).toArray),
+        ("eff", Json.arr (vals.map fun v => Json.bool (validEff (S :: C) v)).toArray),
+        ("lex", Json.arr lex.toArray)])
+  return Json.mkObj [("steps", Json.arr out.toArray)]
+end
+
+/-! ### attribute uses -/
+open XsVerif.Attributes XsVerif.AttrRestr in
+section
+
+def optStrN (j : Json) (k : String) : Except String (Option String) := do
+  match j.getObjVal? k with
+  | .ok (.str s) => pure (some s)
+  | _ => pure none
+
+def parseDecl (j : Json) : Except String Decl := do
+  let name ← parseQN (← j.getObjVal? "n")
+  let use ← match (← getStr j "use") with
+    | "optional" => pure Use.optional | "required" => pure Use.required
+    | "prohibited" => pure Use.prohibited | _ => throw "use"
+  return { name, use, fixed := ← optStrN j "fixed", dflt := ← optStrN j "default", ty := ← getNat j "ty",
+           sameSchema := optBool j "same" true }
+
+def parseAnyAttr (j : Json) : Except String (Option AnyAttr) := do
+  match j with
+  | .null => pure none
+  | _ => return some { wc := ← parseWc (← j.getObjVal? "wc"), pc := parsePC (← getStr j "pc") }
+
+def parseGroup (j : Json) : Except String Group := do
+  return { decls := ← (← getArr j "decls").toList.mapM parseDecl,
+           any := ← parseAnyAttr ((j.getObjVal? "any").toOption.getD .null) }
+
+def useStr : Use → String | .optional => "optional" | .required => "required" | .prohibited => "prohibited"
+def pcStr : PC → String | .strict => "strict" | .lax => "lax" | .skip => "skip"
+
+def declJson (d : Decl) : Json :=
+  Json.mkObj [("n", qnJson d.name), ("use", useStr d.use),
+    ("fixed", match d.fixed with | some f => Json.str f | none => Json.null), ("ty", d.ty)]
+
+def groupJson (G : Group) : Json :=
+  Json.mkObj [("decls", Json.arr (G.decls.map declJson).toArray),
+    ("any", match G.any with
+      | some a => Json.mkObj [("wc", wcJson a.wc), ("pc", pcStr a.pc)]
+      | none => Json.null)]
+
+def rerrJson : RErr → Json
+  | .unexpected n => Json.arr #["unexpected", n.ns, n.loc]
+  | .unexpectedWildcard => Json.arr #["unexpected", "", "None"]
+  | .wildcard => Json.arr #["wildcard", "", ""]
+  | .type n => Json.arr #["type", n.ns, n.loc]
+  | .use n => Json.arr #["use", n.ns, n.loc]
+  | .fixed n => Json.arr #["fixed", n.ns, n.loc]
+
+def pairs2 (j : Json) : Except String (List (Nat × Nat)) := do
+  (← j.getArr?).toList.mapM fun e => do
+    let p ← e.getArr?
+    if h : p.size = 2 then pure ((← p[0].getNat?), (← p[1].getNat?)) else throw "pair"
+
+/-- {"op":"attrs","B":group,"D":declared group,"globals":[decl…],"loaded":[ns…],
+     "derived":[[d,b]…],"anySimple":[ty…],"norm":[[ty,s,normalised]…],"anyExempt":b,
+     "valid":[[ty,lex]…],"cls":[[ty,lex,class]…],"cases":[[[[ns,loc],value]…]…]}
+    → {"errs":[…], "merged":group, "validD":[b…], "validB":[b…], "g1":b,"g2":b,"g3":b} -/
+def handleAttrs (j : Json) : Except String Json := do
+  let B ← parseGroup (← j.getObjVal? "B")
+  let D ← parseGroup (← j.getObjVal? "D")
+  let globals ← (← getArr j "globals").toList.mapM parseDecl
+  let loaded ← getStrList j "loaded"
+  let env : Env := { globals, loaded }
+  let derived ← pairs2 (← j.getObjVal? "derived")
+  let anyS ← (← getArr j "anySimple").toList.mapM (·.getNat?)
+  let normT ← (← getArr j "norm").toList.mapM fun e => do
+    let p ← e.getArr?
+    if h : p.size = 3 then pure ((← p[0].getNat?), (← p[1].getStr?), (← p[2].getStr?)) else throw "norm"
+  let R : RCtx := {
+    tyDerived := fun d b => derived.contains (d, b),
+    tyIsAnySimple := fun t => anyS.contains t,
+    norm := fun t x => ((normT.find? fun e => e.1 == t && e.2.1 == x).map (·.2.2)).getD x,
+    anyExempt := optBool j "anyExempt" true }
+  let validT ← (← getArr j "valid").toList.mapM fun e => do
+    let p ← e.getArr?
+    if h : p.size = 2 then pure ((← p[0].getNat?), (← p[1].getStr?)) else throw "valid"
+  let cls ← (← getArr j "cls").toList.mapM fun e => do
+    let p ← e.getArr?
+    if h : p.size = 3 then pure ((← p[0].getNat?), (← p[1].getStr?), (← p[2].getNat?)) else throw "cls"
+  let sem : Sem := {
+    validT := fun t x => validT.contains (t, x),
+    valueEq := fun t a b =>
+      match cls.find? (fun e => e.1 == t && e.2.1 == a), cls.find? (fun e => e.1 == t && e.2.1 == b) with
+      | some ea, some eb => ea.2.2 == eb.2.2
+      | _, _ => false }
+  let cases ← (← getArr j "cases").toList.mapM fun c => do
+    (← c.getArr?).toList.mapM fun e => do
+      let p ← e.getArr?
+      if h : p.size = 2 then pure (((← parseQN p[0]), (← p[1].getStr?)) : Attr) else throw "attr"
+  let o : Opts := { useDefaults := true, fillMissing := false, legacy := false }
+  let M := merged B D
+  return Json.mkObj [("errs", Json.arr ((check R env B D).map rerrJson).toArray),
+    ("merged", groupJson M),
+    ("validD", Json.arr (cases.map fun A => Json.bool (validFor sem env o M A)).toArray),
+    ("validB", Json.arr (cases.map fun A => Json.bool (validFor sem env o B A)).toArray),
+    ("g1", noAnyExempt R D), ("g2", noProhibitedThroughWildcard env B D),
+    ("g3", wildcardDoesNotAssess env B D)]
+end
+
 def handle (j : Json) : Except String Json := do
   match (← getStr j "op") with
   | "pair" => handlePair j
   | "occ" => handleOcc j
+  | "facets" => handleFacets j
+  | "attrs" => handleAttrs j
   | _ => throw "op"
 
 end XsVerif.Driver.C14
